@@ -234,6 +234,7 @@ class FunctionRun:
         self.trusted_used = set()
         self.bound_names = []
         self.qenv = {}
+        self.after_hits = set()
         self.axioms = []
         self.axiom_keys = set()
         self.callees_used = set()
@@ -329,6 +330,9 @@ class FunctionRun:
         self.oblige(st, 'cover', TRUE, self.fn, 'requires-satisfiable', expect='sat')
         self.entry.pc = list(st.pc)
         outs = self.exec_block(extract.body_without_docstring(self.fn), [st])
+        for text in c.after:
+            if text not in self.after_hits:
+                raise StaleContract('no statement matches the anchor %r of an intermediate assertion' % text)
         self.finish(outs)
         return self.obligations
 
@@ -383,6 +387,14 @@ class FunctionRun:
             del self.bound_names[-1:]
         goal = z3.ForAll([j], z3.Implies(z3.And(0 <= j, j < T_LSTR.length(list_term)), ok))
         self.oblige(st, 'type-inv', goal, node, 'bonding-descriptors', detail='every element written to a bonding list is a well-formed descriptor')
+
+    def truth(self, v, st):
+        """Python truthiness; a networkx graph is falsy when it has no nodes (needs the heap)."""
+        if isinstance(v, Val) and isinstance(v.ty, TGraph):
+            return st.heap.n_nodes(v.t) > 0
+        if isinstance(v, Val) and isinstance(v.ty, TOpt) and isinstance(v.ty.inner, TGraph):
+            return z3.And(z3.Not(v.ty.is_none(v.t)), st.heap.n_nodes(v.ty.get(v.t)) > 0)
+        return ops.truthy(v)
 
     def _writable_pred(self, mod_terms, fresh_from):
         def pred(g, comps=None):
@@ -512,7 +524,19 @@ class FunctionRun:
         m = getattr(self, 'st_' + type(s).__name__, None)
         if m is None:
             raise Unsupported('statement %s at line %d' % (type(s).__name__, s.lineno))
-        return m(s, st)
+        outs = m(s, st)
+        if self.c.after and not isinstance(s, (ast.For, ast.While, ast.If, ast.Try)):
+            key = ''.join(ast.unparse(s).split())
+            for text, lemmas in self.c.after.items():
+                if ''.join(text.split()) == key:
+                    self.after_hits.add(text)
+                    for x in outs:
+                        if x.flow is None:
+                            for j, lm in enumerate(lemmas):
+                                goal = self.spec_bool(lm, x, self.entry)
+                                self.oblige(x, 'lemma', goal, s, 'after-L%d.%d' % (s.lineno, j), detail=lm)
+                                x.assume(goal)
+        return outs
 
     def st_Pass(self, s, st):
         return [st]
@@ -530,7 +554,7 @@ class FunctionRun:
         return [st]
 
     def st_Assert(self, s, st):
-        cond = ops.truthy(self.ev(s.test, st))
+        cond = self.truth(self.ev(s.test, st), st)
         self.oblige(st, 'no-exc', cond, s, 'assert')
         st.assume(cond)
         return [st]
@@ -569,7 +593,7 @@ class FunctionRun:
         return [st]
 
     def st_If(self, s, st):
-        cond = ops.truthy(self.ev(s.test, st))
+        cond = self.truth(self.ev(s.test, st), st)
         cond_s = z3.simplify(cond)
         outs = []
         if not z3.is_false(cond_s):
@@ -919,7 +943,7 @@ class FunctionRun:
         head.assume(0 <= i)
         for e in inv:
             head.assume(self.spec_bool(e, head, self.entry))
-        cond = ops.truthy(self.ev(s.test, head))
+        cond = self.truth(self.ev(s.test, head), head)
         body = head.copy()
         body.assume(cond)
         outs, after_loop = [], []
@@ -1099,7 +1123,7 @@ class FunctionRun:
     def ex_UnaryOp(self, e, st, spec, old):
         v = self.ev(e.operand, st, spec, old)
         if isinstance(e.op, ast.Not):
-            return Val(TBool, z3.Not(ops.truthy(v)))
+            return Val(TBool, z3.Not(self.truth(v, st)))
         if isinstance(e.op, ast.USub):
             return Val(v.ty if v.ty in (TInt, TReal) else TInt, -(v.t if v.ty in (TInt, TReal) else ops.to_int(v)))
         if isinstance(e.op, ast.UAdd):
